@@ -277,15 +277,17 @@ func (r Rule) IsIdentical(b Rule) bool {
 		return false
 	}
 
+	// A comment is its kind and its value: "disable foo" and "rule/owner foo"
+	// are not the same comment.
 	ac := make([]string, 0, len(r.Comments))
 	for _, c := range r.Comments {
-		ac = append(ac, c.Value.String())
+		ac = append(ac, fmt.Sprintf("%d %s", c.Type, c.Value.String()))
 	}
 	slices.Sort(ac)
 
 	bc := make([]string, 0, len(r.Comments))
 	for _, c := range b.Comments {
-		bc = append(bc, c.Value.String())
+		bc = append(bc, fmt.Sprintf("%d %s", c.Type, c.Value.String()))
 	}
 	slices.Sort(bc)
 
